@@ -267,6 +267,40 @@ EXPLANATION = (
 )
 
 
+def check_utc_offset_components(run, fx):
+    """UtcOffset::to_string: the record handed to the writer carries the sign of the WHOLE offset and the magnitude split
+    into hours and minutes"""
+    rule = "R1.utc-offset-components"
+    run.rule(rule, "UtcOffset::to_string, folded on zero, on offsets below one hour and on offsets of an hour or more, for both "
+                   "signs: the formattable record has sign = sign of the whole offset (a negative offset of less than an hour "
+                   "is negative), hour = |minutes| / 60, minute = |minutes| mod 60")
+    f = fx["temporal_rs"].fn1("UtcOffset::to_string")
+    if f is None:
+        run.anchor_missing(rule, "UtcOffset::to_string", "not found")
+        return
+    U = "temporal_rs::builtins::core::timezone::UtcOffset"
+    for v in (0, 1, -1, 30, -30, 59, -59, 60, -60, 90, -90, 1439, -1439):
+        ev = H.Evaluator(fx)
+        ev.lossy = []
+        try:
+            r = ev.call_fn(f, [H.V(U, (v,))])
+        except (H.Panic, H.Budget):
+            r = None
+        rec = [x for x in walk(r) if isinstance(x, H.S) and x.path.endswith("FormattableOffset")] if r is not None else []
+        tm = [x for x in walk(r) if isinstance(x, H.S) and x.path.endswith("FormattableTime")] if r is not None else []
+        key = "offset/%d" % v
+        if ev.lossy or len(rec) != 1 or len(tm) != 1 or H.has_sym(rec[0]):
+            run.ok(rule, key, "the formattable record does not fold: not decided", f.loc, nontrivial=False)
+            continue
+        sign = H.sfield(rec[0], "sign")
+        got = (sign.path.rsplit("::", 1)[-1] if isinstance(sign, H.V) else sign, H.sfield(tm[0], "hour"), H.sfield(tm[0], "minute"))
+        want = ("Negative" if v < 0 else "Positive", abs(v) // 60, abs(v) % 60)
+        run.check(got == want, rule, key, "%d min -> %s %02d:%02d" % ((v,) + want),
+                  "UtcOffset(%d minutes) is written as (sign %s, hour %s, minute %s); expected (%s, %d, %d)" % ((v,) + got + want),
+                  f.loc)
+    run.exhaustive_tables.append("UtcOffset components (sign x below / above one hour)")
+
+
 def main(tier):
     run = Run("C11", tier)
     fx = Facts("full")
@@ -276,4 +310,5 @@ def main(tier):
     run.assumptions += ["writeable's integer write_to and core::fmt write the digits they are given"]
     from ..rules import siblings
     siblings.check_offset_rounding(run, fx)
+    check_utc_offset_components(run, fx)
     return run.finish(EXPLANATION)
